@@ -26,7 +26,12 @@ RULE = (
     "event on EVERY step boundary k*dt (k=1..N) cycling through all instantaneous kinds (ECI impulse, NTW impulse, "
     "target addition, target removal, sensor addition, sensor removal) plus events 1 s before/after a boundary and "
     "mid-step; planned impulses with estimation on; duration events (task priority on two engines, sensor time bias "
-    "on two sensors) with start/end on boundaries, boundary+-1 s and mid-step. Every delivery is logged by wrapping "
+    "on two sensors) with start/end on boundaries, boundary+-1 s and mid-step; a bias-queue family with 27 time biases "
+    "on two sensors over 14 steps in which 1, 2, 3 and 4 biases of ONE sensor end in the same step (adjacent in its "
+    "queue, separated by a live one, behind a live head, identical twins, zero-length twins, born and over within one "
+    "step) - after every step each sensor must hold exactly the biases whose interval contains the epoch, each once "
+    "(non-trivial there = a bias judged in a step in which another bias of the same sensor leaves the queue). "
+    "Every delivery is logged by wrapping "
     "handleEvent; the oracle step index is ceil(offset/dt) in integer seconds. non-trivial = event exactly on a step "
     "boundary, or a duration event with an end on a boundary; distinct by (start, dt, event index)."
 )
@@ -113,6 +118,8 @@ def items(tier, seed):
         for dt in ([60, 300] if tier == "quick" else [30, 60, 300]):
             out.append(("planned", st.isoformat(), dt, n_est))
             out.append(("duration", st.isoformat(), dt, n_est))
+            # many biases per sensor: queue maintenance with several entries starting / ending in the same step
+            out.append(("biasq", st.isoformat(), dt, BIASQ_STEPS))
     return out
 
 
@@ -124,6 +131,15 @@ def bounds(tier, seed):
         "run_length_estimation": 10 if tier == "quick" else 24,
         "configured_span_vs_run": ["run + 1 step", "equal to the run (last event on the stop epoch)", "half the run"],
         "event_offsets_seconds": ["k*dt", "k*dt-1", "k*dt+1", "k*dt-dt/2", "k*dt+0.3", "k*dt-0.3", "k*dt+0.5", "k*dt+1.7"],
+        "bias_queue_family": {
+            "run_length": BIASQ_STEPS,
+            "events": len(_biasq_events(60)),
+            "groups_per_sensor": sorted({f"{e['sensor']}:{e['group']}" for e in _biasq_events(60)}),
+            "simultaneously_leaving_one_queue": [1, 2, 3, 4],
+            "shapes": ["adjacent in the queue", "separated by a live entry", "behind a live head", "head leaves first",
+                       "identical twins", "zero-length twins on a boundary", "handed over and over within one step",
+                       "ends on boundary / boundary-1 / mid-step", "same instants on both sensors"],
+        },
     }
 
 
@@ -666,11 +682,143 @@ def _run_duration(res, item):
     res.traces += 1
 
 
+# ----------------------------------------------------------------------------------------------- bias queue (multiplicity)
+BIASQ_STEPS = 14
+
+
+def _biasq_events(dt):
+    """SEVERAL time biases per sensor whose lives interleave: what a sensor holds is a queue, and queue maintenance
+    (append once, drop when over) has branches that only matter when two or more entries start / end in the SAME step,
+    sit NEXT to each other, sit BEHIND a live head, or are identical twins.  Offsets are integer seconds.
+
+    Ends are mostly ON a step boundary k*dt: such an event contains t_k and neither overlaps nor contains step k+1, so
+    its absence after step k+1 is asserted strictly (an end inside a step is either-way in the step it ends in).
+    """
+    h = dt // 2
+    A, B = 20001, 20002
+    ev = [
+        # ---- sensor A
+        (A, "long_head", h, 13 * dt),                       # first in the queue for the whole run, leaves alone at the end
+        (A, "pair_same_boundary", 1 * dt + 1, 3 * dt),       # two neighbours that end on the same boundary
+        (A, "pair_same_boundary", 2 * dt - h, 3 * dt),
+        (A, "triple_same_boundary", 4 * dt, 6 * dt),         # three neighbours ending together
+        (A, "triple_same_boundary", 4 * dt + 1, 6 * dt),
+        (A, "triple_same_boundary", 5 * dt - h, 6 * dt),
+        (A, "twins_then_follower", 7 * dt + 1, 8 * dt),      # identical twins, then one that ends a step later
+        (A, "twins_then_follower", 7 * dt + 1, 8 * dt),
+        (A, "twins_then_follower", 8 * dt, 9 * dt),
+        (A, "quad_same_boundary", 9 * dt + 1, 11 * dt),      # four neighbours ending together
+        (A, "quad_same_boundary", 10 * dt - h, 11 * dt),
+        (A, "quad_same_boundary", 10 * dt, 11 * dt),
+        (A, "quad_same_boundary", 10 * dt + 1, 11 * dt),
+        (A, "staggered_chain", 11 * dt + 1, 12 * dt - h),    # two end inside step 12, the next on boundary 12, then the head
+        (A, "staggered_chain", 11 * dt + 2, 12 * dt - 1),
+        (A, "staggered_chain", 11 * dt + 3, 12 * dt),
+        # ---- sensor B
+        (B, "head_ends_first", 1 * dt, 2 * dt),              # the head leaves, a live one stays behind it
+        (B, "head_ends_first", 1 * dt + 1, 5 * dt),
+        (B, "non_adjacent_pair", 3 * dt - h, 4 * dt),        # two that end together with a live one between them
+        (B, "live_between", 3 * dt + 1, 8 * dt - 1),
+        (B, "non_adjacent_pair", 4 * dt - h, 4 * dt),
+        (B, "born_and_gone_in_one_step", 6 * dt + 1, 7 * dt - 1),   # handed over and over within the same step, adjacent
+        (B, "born_and_gone_in_one_step", 6 * dt + 2, 7 * dt - 2),
+        (B, "pair_same_boundary_as_other_sensor", 9 * dt + 1, 11 * dt),   # coincides with sensor A's quad
+        (B, "pair_same_boundary_as_other_sensor", 10 * dt, 11 * dt),
+        (B, "zero_length_twins", 12 * dt, 12 * dt),          # instantaneous, on a boundary, twice
+        (B, "zero_length_twins", 12 * dt, 12 * dt),
+    ]
+    out = [{"sensor": s, "group": g, "a": a, "b": b, "bias": 0.05 + 0.01 * i} for i, (s, g, a, b) in enumerate(ev)]
+    out.sort(key=lambda e: e["a"])  # builder: sorted(events, key=start_time) - stable; row id = index + 1
+    return out
+
+
+def _run_biasq(res, item):
+    _, iso, dt, n = item
+    st = datetime.fromisoformat(iso)
+    evs = _biasq_events(dt)
+    ev_cfgs = [{"scope": "observation_generation", "scope_instance_id": e["sensor"],
+                "start_time": scen.iso(st + timedelta(seconds=e["a"])), "end_time": scen.iso(st + timedelta(seconds=e["b"])),
+                "event_type": "sensor_time_bias", "applied_bias": e["bias"]} for e in evs]
+    t1 = scen.target_eci(10001, *scen.overhead_orbit(st, 9.0, 21.0, 20000.0, 90.0))
+    t2 = scen.target_eci(10002, *scen.overhead_orbit(st, 11.0, 25.0, 21000.0, 60.0))
+    s1 = scen.ground_sensor(20001, 10.0, 20.0, fov={"fov_shape": "conic", "cone_angle": 20.0})
+    s2 = scen.ground_sensor(20002, 12.0, 27.0, fov={"fov_shape": "conic", "cone_angle": 20.0})
+    cfg = scen.config(st, n + 1, [scen.engine(0, [t1], [s1]), scen.engine(1, [t2], [s2])], physics=dt, events=ev_cfgs, seed=7)
+    del _LOG[:]
+    sc = scen.build(cfg)
+    base_case = {"family": "bias_queue", "start": iso, "start_second": st.second, "dt": dt}
+    err, steps_run = None, 0
+    queues = []
+    for k in range(1, n + 1):
+        _STEP[0] = k
+        try:
+            sc.stepForward()
+        except Exception as exc:  # noqa: BLE001
+            err = f"step {k}: {type(exc).__name__}: {exc}"
+            break
+        steps_run = k
+        queues.append({sid: [ev.id for ev in sa.sensor_time_bias_event_queue] for sid, sa in sc.sensor_agents.items()})
+    if err:
+        res.violate("bias_queue/run", base_case, signature=f"C01/bias_queue/run_error/{err.split(':')[1].strip() if ':' in err else 'error'}",
+                    observed=err, item=item)
+    deliveries = {}
+    for (eid, etype, hcls, hid, step) in _LOG:
+        deliveries.setdefault((eid, step), []).append((hcls, hid))
+
+    def contains(e, k):
+        return k >= 1 and e["a"] <= k * dt <= e["b"]
+
+    def overlaps(e, k):
+        return e["a"] <= k * dt and e["b"] > (k - 1) * dt
+
+    def leaves(e, k):
+        """In the sensor's hands during step k (held after step k-1, or handed over in step k) and over at t_k."""
+        return (contains(e, k - 1) or overlaps(e, k)) and not contains(e, k)
+
+    for k in range(1, steps_run + 1):
+        for sid, q in queues[k - 1].items():
+            dup = sorted({r for r in q if q.count(r) > 1})
+            res.case("bias_queue/once", {**base_case, "step": k, "sensor": sid}, not dup,
+                     signature="C01/bias_queue/held_twice", observed=q, expected="every event at most once", item=item)
+            res.observe(q)
+        for idx, e in enumerate(evs):
+            row = idx + 1
+            case = {**base_case, "step": k, "group": e["group"], "a": e["a"], "b": e["b"], "sensor": e["sensor"], "row": row}
+            got = deliveries.get((row, k), [])
+            want = [("SensingAgent", e["sensor"])] if overlaps(e, k) else []
+            label = "ok" if got == want else ("misdelivered_to_other_sensor" if [g for g in got if g[1] != e["sensor"]] else
+                                              "not_handed_over" if want and not got else
+                                              "handed_over_outside_interval" if got and not want else "duplicated")
+            res.case("bias_queue/delivery", case, got == want, signature=f"C01/bias_queue/delivery/{label}",
+                     observed=got, expected=want, outcome=label, item=item)
+            # companions: other events of the SAME sensor that leave its queue in the same step (the mechanism under test)
+            mates = sum(1 for f in evs if f is not e and f["sensor"] == e["sensor"] and leaves(f, k))
+            for sid, q in queues[k - 1].items():
+                held = row in q
+                if sid != e["sensor"]:
+                    res.case("bias_queue/only_named_sensor", {**case, "other_sensor": sid}, not held,
+                             signature="C01/bias_queue/on_other_sensor", observed=q, item=item)
+                elif contains(e, k) == overlaps(e, k):
+                    c = contains(e, k)
+                    res.case("bias_queue/held", {**case, "leaving_with": mates}, held == c,
+                             nontrivial=(not c and leaves(e, k) and mates >= 1) or (c and mates >= 1),
+                             signature=f"C01/bias_queue/{'missing_inside_interval' if c else 'held_after_interval'}/{e['group']}",
+                             observed={"held": held, "queue": q}, expected={"held": c},
+                             outcome=("held" if held else "absent") + f"/mates{min(mates, 3)}", item=item)
+                else:
+                    res.either_way += 1
+    res.states += steps_run + 1
+    res.transitions += steps_run
+    res.traces += 1
+
+
 def run_item(item):
     _install_wrappers()
     res = fw.Result()
     fam = item[0]
-    if fam == "instant":
+    if fam == "biasq":
+        _run_biasq(res, item)
+    elif fam == "instant":
         _run_instant(res, item)
     elif fam == "planned":
         _run_planned(res, item)
